@@ -28,6 +28,9 @@ package store
 //@ ghost field tdeposit map[NodeID]int
 //@ ghost field total int
 //@ ghost field nonce map[string]int
+// tracked, peerts   : per node, the set of peers the pool tracks for it and the check-in time recorded for each
+//@ ghost field tracked map[NodeID]set[NodeID]
+//@ ghost field peerts map[NodeID]map[NodeID]int
 //
 // History ghosts (defined by the contracts, not by implementations):
 // logid, logamt, loglen : append-only log of successful balance operations (node id, amount)
@@ -139,18 +142,63 @@ package store
 //@ ensures [missing] err != nil ==> result == nil
 //@ modifies nothing
 
+// ---- keep-alive bookkeeping (C11) -----------------------------------------------------------
+// listedUpTo(peers, n, k): k is among the first n reported peer ids (quantified over positions of the backing array)
+//@ pure listedUpTo(peers []string, n int, k NodeID) bool = exists p int :: off(peers) <= p && p < off(peers) + n && elems(peers)[p] == string(k)
+// refreshed: reported now and known to the pool; wasTracked: refreshed now or still tracked from an earlier keep-alive
+//@ pure refreshed(s PoolStore, peers []string, k NodeID) bool = old(listedUpTo(peers, len(peers), k)) && old(s.reg[k])
+//@ pure wasTracked(s PoolStore, id NodeID, peers []string, k NodeID) bool = refreshed(s, peers, k) || old(s.tracked[id][k])
+// checkin: the peer's own last check-in as recorded the last time the node reported it
+//@ pure checkin(s PoolStore, id NodeID, peers []string, k NodeID) int = ite(refreshed(s, peers, k), old(s.node[k].LastSeen), old(s.peerts[id][k]))
+//@ pure inList(l []NodeID, k NodeID) bool = exists p int :: off(l) <= p && p < off(l) + len(l) && elems(l)[p] == k
+
 //@ interface store.PoolStore.UpdateNodePeers(nodeID, peers, blockNumber) (inactive, err)
-//@ defines [effect]  effects >= old(effects) && (err != nil ==> effects == old(effects))
-//@ ensures [errkind] plainError(err)
-//@ ensures [frame]   sameCredit(this) && this.total == old(this.total) && this.reg == old(this.reg)
-//@ modifies effects, this.node
+//@ ensures [unreg]     !old(this.reg[nodeID]) ==> err == ErrUnregisteredNode
+//@ ensures [errkind]   plainError(err)
+//@ ensures [fail]      err != nil ==> this.node == old(this.node) && this.tracked == old(this.tracked) && this.peerts == old(this.peerts)
+//@ ensures [self]      err == nil ==> old(this.reg[nodeID]) && this.node[nodeID].LastSeen == clock() && this.node[nodeID].BlockNumber == blockNumber
+//@                        && this.node[nodeID].ID == old(this.node[nodeID].ID) && this.node[nodeID].URI == old(this.node[nodeID].URI) && this.node[nodeID].Kind == old(this.node[nodeID].Kind)
+//@                        && this.node[nodeID].IsHost == old(this.node[nodeID].IsHost) && this.node[nodeID].Payout == old(this.node[nodeID].Payout)
+//@ ensures [others]    forall n NodeID :: n != nodeID ==> this.node[n] == old(this.node[n]) && this.tracked[n] == old(this.tracked[n]) && this.peerts[n] == old(this.peerts[n])
+//@ ensures [tracked]   err == nil ==> forall k NodeID :: k != nodeID ==>
+//@                        (this.tracked[nodeID][k] <==> wasTracked(this, nodeID, peers, k) && checkin(this, nodeID, peers, k) > clock() - ExpireInterval)
+//@ ensures [times]     err == nil ==> forall k NodeID :: k != nodeID && this.tracked[nodeID][k] ==> this.peerts[nodeID][k] == checkin(this, nodeID, peers, k)
+//@ ensures [invalid]   err == nil ==> forall k NodeID :: k != nodeID ==>
+//@                        (inList(inactive, k) <==> wasTracked(this, nodeID, peers, k) && !(checkin(this, nodeID, peers, k) > clock() - ExpireInterval))
+//@ ensures [distinct]  err == nil ==> forall p int, q int :: off(inactive) <= p && p < q && q < off(inactive) + len(inactive) ==> elems(inactive)[p] != elems(inactive)[q]
+//@ ensures [frame]     sameCredit(this) && this.total == old(this.total) && this.reg == old(this.reg) && this.linked == old(this.linked) && this.acct == old(this.acct)
+//@ defines [effect]    effects >= old(effects) && (err != nil ==> effects == old(effects))
+//@ modifies effects, this.node, this.tracked, this.peerts, clock
+
+// hasNode(l, k): the node list l contains a record with id k (quantified over positions of the backing array)
+//@ pure hasNode(l []Node, k NodeID) bool = exists p int :: off(l) <= p && p < off(l) + len(l) && elems(l)[p].ID == k
+//@ pure distinctIDs(l []Node) bool = forall p int, q int :: off(l) <= p && p < q && q < off(l) + len(l) ==> elems(l)[p].ID != elems(l)[q].ID
 
 //@ interface store.PoolStore.NodePeers(nodeID) (result, err)
-//@ ensures [errkind] plainError(err)
+//@ ensures [errkind]  plainError(err)
+//@ ensures [unreg]    !this.reg[nodeID] ==> err == ErrUnregisteredNode
+//@ ensures [members]  err == nil ==> forall p int :: off(result) <= p && p < off(result) + len(result) ==>
+//@                       this.tracked[nodeID][elems(result)[p].ID] && this.reg[elems(result)[p].ID] && elems(result)[p] == this.node[elems(result)[p].ID]
+//@ ensures [complete] err == nil ==> forall k NodeID :: this.tracked[nodeID][k] && this.reg[k] ==> hasNode(result, k)
+//@ ensures [distinct] err == nil ==> distinctIDs(result)
 //@ modifies nothing
+
+// eligible(s, kind, since, n): n is a full-node host of the requested kind (any kind when empty) that checked in after since
+//@ pure eligibleHost(n Node, kind string, since int) bool = n.IsHost && (kind == "" || n.Kind == kind) && n.LastSeen > since
 
 //@ interface store.PoolStore.ActiveHosts(kind, limit) (result, err)
 //@ requires limit >= 0
-//@ ensures [errkind] plainError(err)
-//@ ensures [limit]   err == nil && limit > 0 ==> len(result) <= limit
-//@ modifies nothing
+//@ ensures [errkind]  plainError(err)
+//@ ensures [eligible] err == nil ==> forall p int :: off(result) <= p && p < off(result) + len(result) ==>
+//@                       this.reg[elems(result)[p].ID] && elems(result)[p] == this.node[elems(result)[p].ID] && eligibleHost(elems(result)[p], kind, clock() - ExpireInterval)
+//@ ensures [distinct] err == nil ==> distinctIDs(result)
+//@ ensures [limit]    err == nil && limit > 0 ==> len(result) <= limit
+//@ ensures [supply]   err == nil && (limit == 0 || len(result) < limit) ==> forall k NodeID :: this.reg[k] && eligibleHost(this.node[k], kind, clock() - ExpireInterval) ==> hasNode(result, k)
+//@ modifies clock
+
+//@ interface store.PoolStore.RemoveNode(nodeID) (err)
+//@ modifies this.reg, this.node
+
+//@ interface store.Store.Stats() (result, err)
+//@ ensures [ledger-total] err == nil ==> result != nil && bigval(result.TotalCredit) == this.total
+//@ modifies clock
